@@ -1,7 +1,7 @@
 """C19 - transformations leave their inputs untouched and record provenance.
 
 Sub-checks
-  transform  library chains of 1..4 transformations on formulas with groups, names, custom
+  transform  library chains of 1..4 (and 9..14 cheap) transformations on formulas with groups, names, custom
              header entries and pre-existing 'transformation i' entries
   cli        `cnfgen <family> -T t1 -T t2 ...` in-process: the comment lines of the output
   graphs     every graph-taking family / group constructor with cnfgen and networkx objects
@@ -288,6 +288,13 @@ def run_transform(case):
     applied = 0
     for pos, t in enumerate(chain):
         F = formulas[-1]
+        if t['name'] == 'annotate':
+            # what a user may do between two steps with the formula he holds: one more header entry of his own
+            # (after it, the latest 'transformation' entry is no longer the last entry of the header)
+            F.header[t['key']] = t['value']
+            snaps[-1] = sn.snap_formula(F)
+            labels.append('annotated-between-steps')
+            continue
         if next_shape(shape_of(F), t) is None:
             labels.append('step-over-cap')
             continue
@@ -353,6 +360,10 @@ def run_transform(case):
                 i, [x['name'] for x in chain], "; ".join(sn.differences(SR, now))))
     if applied >= 3:
         labels.append('chain>=3')
+    if applied >= 11:
+        labels.append('chain>=11')
+    if pre + applied >= 11:
+        labels.append('entries>=11')
     labels.append('chain{}'.format(applied))
     return Outcome(labels=labels, nontrivial=len(F0) >= 2 and applied >= 1)
 
@@ -461,9 +472,15 @@ def any_step(draw, cheap=False):
 
 @st.composite
 def strat_transform(draw):
-    mode = draw(st.sampled_from(['one-expanding', 'one-expanding', 'free-small', 'family']))
+    mode = draw(st.sampled_from(['one-expanding', 'one-expanding', 'free-small', 'family', 'long']))
     length = draw(st.integers(1, 4))
-    if mode == 'free-small':
+    if mode == 'long':
+        # many cheap steps on a tiny formula, and/or many earlier entries: step numbers with two digits
+        F = draw(hand_formulas(maxw=2, maxm=3))
+        F['pre'] = draw(st.sampled_from([0, 0, 3, 8, 9, 10, 11, 19]))
+        length = draw(st.integers(9, 14)) if F['pre'] == 0 or draw(_BOOL) else draw(st.integers(1, 4))
+        chain = [draw(any_step(cheap=True)) for _ in range(length)]
+    elif mode == 'free-small':
         F = draw(hand_formulas(maxw=2, maxm=4))
         chain = [draw(any_step()) for _ in range(length)]
     else:
@@ -482,11 +499,17 @@ def strat_transform(draw):
             t['k'] = 2
             if 'K' in t:
                 t['K'] = min(t['K'], 3)
+    if draw(_ONE_IN_3):
+        # the user's own header entries between two steps
+        for _ in range(draw(st.integers(1, 2))):
+            at = draw(st.integers(0, len(chain)))
+            chain.insert(at, {'name': 'annotate', 'key': draw(st.sampled_from(['note', 'remark 2', 'transformation', 'transformations', 'step'])),
+                              'value': draw(st.sampled_from(['by hand', '', 'transformation 7']))})
     return {'F': F, 'chain': chain, 'rseed': draw(_SEED)}
 
 
 TRANSFORM_LABELS = (ARITY + list(LINEAR) + ['ite', 'lift', 'flip', 'shuffle'] + COMP +
-                    ['arity1', 'arity2', 'arity3', 'chain1', 'chain2', 'chain3', 'chain4', 'chain>=3', 'preexisting-entry',
+                    ['arity1', 'arity2', 'arity3', 'chain1', 'chain2', 'chain3', 'chain4', 'chain>=3', 'chain>=11', 'entries>=11', 'annotated-between-steps', 'preexisting-entry',
                      'custom-header', 'named-groups', 'no-description', 'comp-cnfgen', 'comp-networkx', 'hand', 'php', 'tseitin'] +
                     ['shuffle-{}-{}'.format(a, b) for a in ('flips', 'vars', 'clauses') for b in ('fixed', 'shuffle', 'list', 'tuple')] +
                     ['comp-nx-sides-' + x for x in sn.NX_SIDES])
@@ -1386,7 +1409,7 @@ def strat_lists(draw):
 
 SUBCHECKS = [
     SubCheck('transform', run_transform, strategy=strat_transform, quick=6000, thorough=200000,
-             rule="hand-made CNFs (0..4 variable groups with names containing braces, 0..10 clauses of width <=4, custom header entries, 0..2 earlier 'transformation i' entries) and small family instances x chains of 1..4 steps over every exported substitution (arity 1..3), ite, lift, flip, xor/maj compression with an explicit bipartite graph (cnfgen and networkx) and Shuffle with 'fixed'/'shuffle'/list/tuple arguments; at most one clause-expanding step unless the formula is tiny, steps over the clause cap are not applied; oracle: snapshot of every earlier formula identical after each step, new object, no shared header/clause objects, header = input header (description contained) + next 'transformation i', mutation of result/inputs afterwards does not leak; non-trivial: input with >=2 clauses and >=1 applied step",
+             rule="hand-made CNFs (0..4 variable groups with names containing braces, 0..10 clauses of width <=4, custom header entries, 0..2 - in a fifth of the cases up to 19 - earlier 'transformation i' entries) and small family instances x chains of 1..4 steps (a tenth of the cases: 9..14 cheap steps, so that step numbers get two digits; a third of the cases: one or two header entries of the user's own inserted into the formula held between two steps, after which the latest step is no longer the last entry) over every exported substitution (arity 1..3), ite, lift, flip, xor/maj compression with an explicit bipartite graph (cnfgen and networkx) and Shuffle with 'fixed'/'shuffle'/list/tuple arguments; at most one clause-expanding step unless the formula is tiny, steps over the clause cap are not applied; oracle: snapshot of every earlier formula identical after each step, new object, no shared header/clause objects, header = input header (description contained) + next 'transformation i', mutation of result/inputs afterwards does not leak; non-trivial: input with >=2 clauses and >=1 applied step",
              required_labels=TRANSFORM_LABELS),
     SubCheck('cli', run_cli, strategy=strat_cli, quick=900, thorough=40000,
              rule="18 family command lines x 1..4 '-T' steps (all transformations of the tool incl. none, shuffle flags, compression 'N d') x dimacs/opb, in-process; oracle: comment lines 'transformation 1..t' consecutive and in order, equal to the header of the formula object of the same command line and to the entries recorded by the same chain of library calls; description line contains the family's description; non-trivial: >=1 real step on a formula with >=2 clauses",
